@@ -282,3 +282,160 @@ impl Args {
         self.tier == "thorough"
     }
 }
+
+/// Breadcrumb + crash/hang reporter + allocation watch.
+///
+/// `catch` turns a panic into an outcome, but an abort (a failed huge allocation, a stack overflow, `abort()`)
+/// or an endless loop inside the library kills or stalls the whole component, and all `check` could say was
+/// "harness crashed". A component's `exec` now holds a `crumb::guard(op)` while the library runs the request: a
+/// signal handler (SIGABRT / SIGSEGV / SIGBUS / SIGILL) and a watchdog thread print
+/// `CRASH-INPUT\t<component>\t<signal>\t<op>` / `HANG-INPUT\t<component>\t<seconds>\t<op>` to stderr and end
+/// the process (exit 70 / 71); `check` turns that line into a violation with the request as its replay.
+pub mod crumb {
+    use std::alloc::{GlobalAlloc, Layout, System};
+    use std::cell::Cell;
+    use std::sync::atomic::{AtomicBool, AtomicU64, AtomicUsize, Ordering};
+
+    const CAP: usize = 1 << 22;
+    static mut BUF: [u8; CAP] = [0; CAP];
+    static LEN: AtomicUsize = AtomicUsize::new(0);
+    static ACTIVE: AtomicBool = AtomicBool::new(false);
+    static SEQ: AtomicU64 = AtomicU64::new(0);
+    static mut COMP: [u8; 32] = [0; 32];
+    static COMP_LEN: AtomicUsize = AtomicUsize::new(0);
+
+    fn wr(b: &[u8]) {
+        unsafe {
+            libc::write(2, b.as_ptr() as *const libc::c_void, b.len());
+        }
+    }
+
+    fn report(kind: &[u8], what: &[u8]) {
+        wr(b"\n");
+        wr(kind);
+        wr(b"\t");
+        unsafe {
+            let c = std::ptr::addr_of!(COMP) as *const u8;
+            wr(std::slice::from_raw_parts(c, COMP_LEN.load(Ordering::Relaxed)));
+        }
+        wr(b"\t");
+        wr(what);
+        wr(b"\t");
+        if ACTIVE.load(Ordering::SeqCst) {
+            unsafe {
+                let p = std::ptr::addr_of!(BUF) as *const u8;
+                wr(std::slice::from_raw_parts(p, LEN.load(Ordering::SeqCst)));
+            }
+        } else {
+            wr(b"-");
+        }
+        wr(b"\n");
+    }
+
+    extern "C" fn on_signal(sig: libc::c_int) {
+        let name: &[u8] = match sig {
+            libc::SIGABRT => b"SIGABRT",
+            libc::SIGSEGV => b"SIGSEGV",
+            libc::SIGBUS => b"SIGBUS",
+            libc::SIGILL => b"SIGILL",
+            _ => b"signal",
+        };
+        report(b"CRASH-INPUT", name);
+        unsafe { libc::_exit(70) }
+    }
+
+    /// install the handlers and the watchdog (an op that runs longer than `hang_secs` of wall time while a
+    /// guard is held is reported as a hang)
+    pub fn install(comp: &str, hang_secs: u64) {
+        unsafe {
+            let n = comp.len().min(32);
+            let c = std::ptr::addr_of_mut!(COMP) as *mut u8;
+            std::ptr::copy_nonoverlapping(comp.as_ptr(), c, n);
+            COMP_LEN.store(n, Ordering::Relaxed);
+            for s in [libc::SIGABRT, libc::SIGSEGV, libc::SIGBUS, libc::SIGILL] {
+                let mut sa: libc::sigaction = std::mem::zeroed();
+                sa.sa_sigaction = on_signal as usize;
+                sa.sa_flags = libc::SA_ONSTACK;
+                libc::sigemptyset(&mut sa.sa_mask);
+                libc::sigaction(s, &sa, std::ptr::null_mut());
+            }
+        }
+        std::thread::spawn(move || {
+            let mut last = (0u64, std::time::Instant::now());
+            loop {
+                std::thread::sleep(std::time::Duration::from_millis(500));
+                let s = SEQ.load(Ordering::SeqCst);
+                if !ACTIVE.load(Ordering::SeqCst) || s != last.0 {
+                    last = (s, std::time::Instant::now());
+                    continue;
+                }
+                if last.1.elapsed().as_secs() >= hang_secs {
+                    report(b"HANG-INPUT", format!("{}s", hang_secs).as_bytes());
+                    unsafe { libc::_exit(71) }
+                }
+            }
+        });
+    }
+
+    pub struct Guard;
+    impl Drop for Guard {
+        fn drop(&mut self) {
+            ACTIVE.store(false, Ordering::SeqCst);
+        }
+    }
+
+    /// hold while the library executes request `op`
+    pub fn guard(op: &str) -> Guard {
+        let n = op.len().min(CAP);
+        unsafe {
+            let p = std::ptr::addr_of_mut!(BUF) as *mut u8;
+            std::ptr::copy_nonoverlapping(op.as_ptr(), p, n);
+        }
+        LEN.store(n, Ordering::SeqCst);
+        SEQ.fetch_add(1, Ordering::SeqCst);
+        ACTIVE.store(true, Ordering::SeqCst);
+        Guard
+    }
+
+    // ---- allocation watch: the largest single request and the sum of all requests on this thread ----
+    thread_local! {
+        static MAX_REQ: Cell<usize> = const { Cell::new(0) };
+        static SUM_REQ: Cell<usize> = const { Cell::new(0) };
+    }
+    pub struct WatchAlloc;
+    unsafe impl GlobalAlloc for WatchAlloc {
+        unsafe fn alloc(&self, l: Layout) -> *mut u8 {
+            note(l.size());
+            System.alloc(l)
+        }
+        unsafe fn dealloc(&self, p: *mut u8, l: Layout) {
+            System.dealloc(p, l)
+        }
+        unsafe fn alloc_zeroed(&self, l: Layout) -> *mut u8 {
+            note(l.size());
+            System.alloc_zeroed(l)
+        }
+        unsafe fn realloc(&self, p: *mut u8, l: Layout, n: usize) -> *mut u8 {
+            note(n);
+            System.realloc(p, l, n)
+        }
+    }
+    fn note(n: usize) {
+        let _ = MAX_REQ.try_with(|m| {
+            if n > m.get() {
+                m.set(n)
+            }
+        });
+        let _ = SUM_REQ.try_with(|s| s.set(s.get().saturating_add(n)));
+    }
+    /// run `f`; returns its result, the largest single allocation request and the sum of all requests made on
+    /// this thread meanwhile
+    pub fn watch<T>(f: impl FnOnce() -> T) -> (T, usize, usize) {
+        let (m0, s0) = (MAX_REQ.with(|m| m.replace(0)), SUM_REQ.with(|s| s.replace(0)));
+        let r = f();
+        let (m, s) = (MAX_REQ.with(|m| m.get()), SUM_REQ.with(|s| s.get()));
+        MAX_REQ.with(|x| x.set(m0.max(m)));
+        SUM_REQ.with(|x| x.set(s0.saturating_add(s)));
+        (r, m, s)
+    }
+}
